@@ -401,8 +401,13 @@ class Ctx:
             }
             path = self.args.out
         else:
-            os.makedirs(os.path.join(VERIF, "evidence"), exist_ok=True)
-            path = os.path.join(VERIF, "evidence", self.pid + ".json")
+            # evidence/ only ever describes complete runs against /repo itself: self-tests against a scratch copy
+            # (VERIF_REPO) and partial runs (--only / --replay) write to the git-ignored work directory instead.
+            partial = bool(self.args.only) or self.only_case is not None
+            scratch = os.path.realpath(os.environ.get("VERIF_REPO", "/repo")) != os.path.realpath("/repo")
+            edir = os.path.join(VERIF, ".work", "evidence-selftest") if (partial or scratch) else os.path.join(VERIF, "evidence")
+            os.makedirs(edir, exist_ok=True)
+            path = os.path.join(edir, self.pid + ".json")
         tmp = path + ".tmp.%d" % os.getpid()
         with open(tmp, "w") as f:
             json.dump(_jsonable(doc), f, indent=1, sort_keys=False)
